@@ -118,7 +118,7 @@ func (t DataType) Bytes(endian binary.ByteOrder, value interface{}, length int64
 		// convert utf16 code points to bytes
 		bs := make([]byte, len(utf16bytes)*2)
 		for i := 0; i < len(utf16bytes); i++ {
-			binary.LittleEndian.PutUint16(bs[i:], utf16bytes[i])
+			binary.LittleEndian.PutUint16(bs[2*i:], utf16bytes[i])
 		}
 
 		return bs, nil
